@@ -799,7 +799,7 @@ V("C04-bool-branch-removed-both", "C04", "bool branch removed on both sides", XM
                 value = False
             else:
                 value = text
-""", "")], expect_rule="xml.writer-covers")
+""", "")], expect_rule="dispatch.subclass-first")
 V("C04-reader-int-as-text", "C04", "reader keeps int elements as text", XML,
   "            try:\n                value = int(text)\n            except:  # noqa: E722\n                value = text", "            value = text",
   expect_rule="xml.tags-agree")
@@ -1181,3 +1181,36 @@ V("SWEEP-number-bool-and", "C05", "bool exclusion only evaluated for non-numbers
   new="        if not isinstance(value, (str, int, float, self.type_cls)) and isinstance(\n            value, bool\n        ):", expect_rule="number.rejects-bool")
 V("SWEEP-dynamic-field-wrong-key", "C01", "dynamic field registered under one key, told another", CORE,
   old="            field.__setkey__(self._schema, key)", new="            field.__setkey__(self._schema, key.lower())", expect_rule="lemma.key-invariant")
+
+# ------------------------------------------------------------------------------------------ mutants of round-2 benign refactors
+# (the refactored spelling must stay *decided*, not merely tolerated: break it and the check has to fire)
+import os as _os
+_SEEDED = _os.path.join(_os.path.dirname(_os.path.dirname(_os.path.abspath(__file__))), "seeded")
+
+
+def VP(vid, prop, what, seed, file, old, new, expect="fire", **kw):
+    V(vid, prop, what, file, old, new, expect=expect, patch=_os.path.join(_SEEDED, seed, "patch.diff"), **kw)
+
+
+VP("C03-R2C-mut-walk-ignores-own", "C03", "iterative owner walk no longer stops at a configuration naming a key file", "C03-R2C", CORE,
+   "        while owner.__keyfile is None and owner._parent is not None:", "        while owner._parent is not None:")
+VP("C03-R2C-mut-default-when-set", "C03", "iterative form: default path returned when the owner HAS a key file", "C03-R2C", CORE,
+   "        if keyfile is None:\n            return Config.DEFAULT_CINCOKEY_FILEPATH\n        return keyfile.filename",
+   "        if keyfile is not None:\n            return Config.DEFAULT_CINCOKEY_FILEPATH\n        return keyfile.filename")
+VP("C03-R2C-mut-default-on-self", "C03", "iterative form: default key file stored on self, not on the root", "C03-R2C", CORE,
+   "            owner.__keyfile = KeyFile(Config.DEFAULT_CINCOKEY_FILEPATH)\n        return owner.__keyfile",
+   "            self.__keyfile = KeyFile(Config.DEFAULT_CINCOKEY_FILEPATH)\n            return self.__keyfile\n        return owner.__keyfile")
+VP("C03-R2C-mut-walk-from-parent", "C03", "iterative walk starts at the parent", "C03-R2C", CORE,
+   "        owner = self\n        while", "        owner = self._parent or self\n        while")
+VP("C04-R2C-mut-tags-swapped", "C04", "merged list/dict branch: tags swapped", "C04-R2C", XML,
+   '            ele.attrib["type"] = "list" if is_list else "dict"', '            ele.attrib["type"] = "dict" if is_list else "list"')
+VP("C04-R2C-mut-list-item-name", "C04", "merged branch: dict entries written under 'item'", "C04-R2C", XML,
+   'if is_list else value.items()', 'if is_list else [("item", v) for v in value.values()]')
+VP("C04-R2C-mut-reader-dict-as-list", "C04", "early-return reader: dict elements decoded to a list", "C04-R2C", XML,
+   "            return {child.tag: self._from_element(child) for child in ele}", "            return [self._from_element(child) for child in ele]")
+VP("C04-R2C-mut-reader-forced-type", "C04", "early-return reader: children decoded with the parent's type", "C04-R2C", XML,
+   "            return [self._from_element(child) for child in ele]", "            return [self._from_element(child, \"str\") for child in ele]")
+VP("C04-R2C-mut-yaml-guard-inverted", "C04", "guard-clause YAML loads: returns the wrapped document when a root key is configured", "C04-R2C", YAML,
+   "        if not self.root_key:\n            return document", "        if self.root_key:\n            return document")
+VP("C04-R2C-mut-yaml-unwrap-always", "C04", "guard-clause YAML loads: indexes by root_key although none configured", "C04-R2C", YAML,
+   "        if not self.root_key:\n            return document\n", "")
